@@ -318,6 +318,24 @@ func c10GenHostile(r *xrand.Rand, idx int, tier string) *fw.Case {
 // object, and one or two blocks that use the head of the chain where an object is asked for (Headers, the body of a
 // Path or Query directive, JSON-RPC Params, an allOf base) or a body: the links, the end and the users in every order.
 func c10GenChains(r *xrand.Rand, idx int, tier string) *fw.Case {
+	if idx%3 == 2 {
+		// the three forms of a Path body side by side: a reference (through an alias), an object that inherits a
+		// parameter, a plain object - each in a block of its own
+		blocks := []string{
+			"TYPE @pbase\n  {\n    \"id\": 1 // the id\n  }\n",
+			"TYPE @pwhole\n  {\n    \"id\": 2\n  }\n",
+			"TYPE @palias\n  @pwhole\n",
+			"URL /cats/{id}\n  Path\n    @palias\n  GET\n    200 any\n",
+			"URL /dogs/{kennel}/{id}\n  Path\n    { // {allOf: \"@pbase\"}\n      \"kennel\": \"k\"\n    }\n  GET\n    200 any\n",
+		}
+		if r.Bool() {
+			blocks = append(blocks, "GET /birds/{id}/x\n  Path\n    {\n      \"id\": 3\n    }\n  200 any\n")
+		}
+		if r.Bool() {
+			blocks = append(blocks, "POST /fish/{tank}/{id}\n  Path\n    { // {allOf: \"@pwhole\"}\n      \"tank\": 7\n    }\n  Request any\n  200 any\n")
+		}
+		return &fw.Case{Meta: map[string]string{"blocks": strings.Join(blocks, "\x00")}, Docs: []run.Doc{{}}}
+	}
 	n := r.Range(1, 3) // links before the object
 	var blocks []string
 	for i := 0; i < n; i++ {
